@@ -163,3 +163,27 @@ Definition run_dens (ws : list Z) : list Z :=
     end
   | _ => [-1]
   end.
+
+(* ------------------------------ ProbOrdMinHash2 ------------------------------ *)
+From PMH Require Import Model.ProbMinHash Model.OrdMinHash.
+
+Fixpoint zll_eqb (a b : list (list Z)) : bool :=
+  match a, b with
+  | [], [] => true
+  | x :: a', y :: b' => zlist_eqb x y && zll_eqb a' b'
+  | _, _ => false
+  end.
+
+Definition run_ord (ws : list Z) : list Z :=
+  match (m <- rd_nat ;; l <- rd_nat ;; maxv <- rd_z ;; brk <- rd_z ;;
+         pairs <- rd_list (rd_list rd_round2) ;;
+         oc <- rd_z ;; sel <- rd_list (rd_list rd_z) ;; vals <- rd_list (rd_list rd_z) ;;
+         rd_ret (m, l, maxv, brk, pairs, (oc, sel, vals))) ws with
+  | Some ((m, l, maxv, brk, pairs, (oc, sel, vals)), []) =>
+    match o_hash_set (negb (brk =? 0)) maxv m l pairs with
+    | Done st => if (oc =? 0) && zll_eqb sel (o_selected st) && zll_eqb vals (o_values st) then [0] else [2]
+    | Exhausted => [1]
+    | PFail _ => if oc =? 1 then [0] else [3]
+    end
+  | _ => [-1]
+  end.
